@@ -951,13 +951,20 @@ func vsFreshCanary(ctx *vsCtx) []string {
 	res := vsCanary(ctx, in, true)
 	keys := []string{}
 	for k, r := range res {
-		if r.outcome() != "ok" {
-			ctx.Harness("canary step %d fails on a fresh plugin instance: %s", k, r.key())
+		switch r.outcome() {
+		case "panic": // a benign, well-formed request: this is a finding, not a harness problem
+			ctx.Violate("panic", fmt.Sprintf("%s.canary[%d]@%s", vsPlugin, k, r.Site), map[string]interface{}{"canary_step": k, "steps": vsCanarySteps(true)},
+				"benign call %d of the canary panics on a fresh plugin instance: %s", k, r.Panic)
+		case "refused":
+			ctx.Harness("canary step %d is refused by a fresh plugin instance: %s", k, r.key())
 		}
 		keys = append(keys, r.key())
 	}
 	if err := vsCheckCanary(res); err != nil {
-		ctx.Harness("canary on a fresh instance does not answer as documented: %v", err)
+		// wrong answers to benign requests are C18's business, not C14's: the canaries then compare
+		// against what the fresh instance answers
+		ctx.Count("canary_fresh_answers_not_as_documented")
+		fmt.Fprintf(os.Stderr, "verif side: note: canary on a fresh %s instance does not answer as documented: %v\n", vsPlugin, err)
 	}
 	return keys
 }
